@@ -8340,6 +8340,11 @@ void SoPlexBase<R>::_ensureRationalLP()
       _rationalLP = new(_rationalLP) SPxLPRational();
       _rationalLP->setOutstream(spxout);
       _rationalLP->setTolerances(this->tolerances());
+
+      // the range types describe the rows and columns of the rational LP: a new, empty LP has none (they may be left
+      // over from a rational LP that was freed when the sync mode was switched to ONLYREAL)
+      _rowTypes.clear();
+      _colTypes.clear();
    }
 }
 
